@@ -254,6 +254,31 @@ def check(repo: Repo, run: Run) -> None:
                 run.ob("C15.J3", f"to_python|{label}", False, f"a {cname} is returned as it is: nested BoolType values are serialised as 1/0", ad.loc(tp))
             else:
                 run.inconclusive("C15.J3", f"to_python|{label}", f"no loop over the {label} that converts every element through to_python was recognised")
+    # numbers and strings keep their JSON kind: to_python hands them to the json module unchanged (an IntType is an
+    # int, a DoubleType a float, a StringType a str); turning one into text changes the document (1 -> "1")
+    for cname in ("IntType", "UintType", "DoubleType", "StringType"):
+        rets = [p for p in path_for(tp, tparam, cname) if p.kind == "return" and p.value is not None]
+        if not rets:
+            run.inconclusive("C15.J3", f"to_python|{cname}", "no returning path for this class was found")
+            continue
+        bad, odd = [], []
+        for p in rets:
+            v = strip_cast(p.value)
+            if isinstance(v, ast.Name) and v.id == tparam:
+                continue
+            if isinstance(v, ast.JoinedStr) or (isinstance(v, ast.Call) and (dotted(v.func) in ("str", "repr", "format", "json.dumps") or (isinstance(v.func, ast.Attribute) and v.func.attr == "format"))):
+                if cname != "StringType":
+                    bad.append((ast.unparse(v)[:50], p.cond_text()[:70]))
+                continue
+            if isinstance(v, ast.Call) and dotted(v.func) in ("int", "float") and cname != "StringType":
+                continue
+            odd.append(ast.unparse(v)[:50])
+        if bad:
+            run.ob("C15.J3", f"to_python|{cname}", False, f"a {cname} is serialised as text `{bad[0][0]}` on the path `{bad[0][1]}`: the JSON number becomes a JSON string", ad.loc(tp))
+        elif odd:
+            run.inconclusive("C15.J3", f"to_python|{cname}", f"returns `{odd[0]}`")
+        else:
+            run.ob("C15.J3", f"to_python|{cname}", True, f"a {cname} reaches the json module unchanged", ad.loc(tp))
     encm = em.get("encode")
     run.shape("C15.J3", "encode", encm is not None and "to_python(cel_object)" in ast.unparse(encm), "encode() serialises to_python(value)", ad.loc(encm) if encm else str(ad.path))
     df = em["default"]
